@@ -282,10 +282,35 @@ def feature_shapes(ctx, run):
 _check_core = check
 
 
+def working_precision(ctx, run):
+    """R1p: both branches of a feature compute in the dtype of the instrument's data.  A branch that does its arithmetic in an
+    unrelated float dtype (an integer grid times a Python float is a default-dtype tensor) and converts the result afterwards agrees
+    with the other branch only to float32 accuracy when the instruments are float64."""
+    from ..dtypes import Provenance
+    prog, interp = ctx.prog, ctx.interp
+    run.require("C03.R1p", 30)
+    for label, mode, ts, make in E.feature_runs(ctx):
+        f = make()
+        get = prog.lookup_method(f.cls, "get")
+        res = [r for r in interp.explore(get, [ts], {}, self_obj=f) if not r["raises"]]
+        if not res:
+            raise AnalysisError(f"{get.qualname} ({mode}): no analysable path")
+        for r in res:
+            pv = Provenance()
+            pv.of(r["value"])
+            bad = [f"{str(t.args[0])[:120]} is computed in the {'default' if v == 'default' else 'a fixed'} float dtype and converted afterwards" for t, v in pv.narrowed]
+            run.oblige("C03.R1p", f"{label}.get({mode}) computes in the dtype of the data", not bad, "; ".join(bad) or "no arithmetic outside the data's dtype")
+            if bad:
+                run.fail(Finding("C03.R1p", get.qualname, f"{label} {mode}: {bad[0]}",
+                                 "this branch is only float32-accurate for float64 instruments while the other branch computes in float64: the two disagree at working precision",
+                                 file=str(prog.modules[get.module].path), line=get.node.lineno, case=mode))
+
+
 def check(ctx, run):  # noqa: F811
     _check_core(ctx, run)
     containers(ctx, run)
     feature_shapes(ctx, run)
+    working_precision(ctx, run)
 
 
 def fact(run, prog, fi, rule, text, ok):
